@@ -147,6 +147,25 @@ def c10_reparenting_keeps_old_parent():
     return (f in s1.children, f in s2.children, f.parent is s2), (f in s1.children) and (f in s2.children)
 
 
+@case
+def c09_assignment_moves_repetition():
+    s = parse_segment('PID|||A~B~C')
+    s.pid_3 = 'X'
+    a = s.to_er7()
+    s = parse_segment('PID|||A~B~C')
+    s.pid_3[1] = 'X'
+    b = s.to_er7()
+    return (a, b), a != 'PID|||X~B~C' and b != 'PID|||A~X~C'
+
+
+@case
+def c09_setitem_by_position():
+    s = parse_segment('PID|1||A~B|C')
+    before = s.to_er7()
+    s.children[3] = 'PID|||Z'[4:] if False else 'Z'
+    return (before, s.to_er7()), True
+
+
 if __name__ == '__main__':
     names = sys.argv[1:] or sorted(CASES)
     for n in names:
